@@ -35,7 +35,7 @@ _NL: /(\\r?\\n[\\t ]*)+/
 %ignore /[\\t ]+/
 %declare _INDENT _DEDENT
 '''
-PROBES_PLAIN = ['x = 7 ;', 'x = ( y + 1 ) ;', 'if a : b = 2 ;', 'x = ;', 'if if', '', 'x = 1 ; y = z + 2 ;', 'x = 7', '= 7 ;', 'ifa = 1 ;']
+PROBES_PLAIN = ['x = 7 ;', 'x = ( y + 1 ) ;', 'if a : b = 2 ;', 'x = ;', 'x = 7 ; ;', '', 'x = 1 ; y = z + 2 ;', 'x = 7', '= 7 ;', 'ifa = 1 ;', 'if if']
 PROBES_INDENT = ['a\n', 'a\n  b\n', 'a\n  b\n c\n', 'a\n  b\n    c\nd\n', '( a\n b )\n', 'a\n  b\n', '', 'a\n\tb\n  c\n', '(\n', 'a\n  b\n  (c\n d)\n']
 
 if P and P.get('kind') == 'hist':
@@ -205,6 +205,9 @@ if P and P.get('kind') == 'sched':
                                                            'visit_token_node', '_visit_node_out_helper', '_call_rule_func', '_collapse_ambig', 'on_cycle')}
         TRACED_FUNCS |= {('earley.py', 'parse'), ('parse_tree_builder.py', '__call__')}
     TRACE_ALL = P.get('traceset') == 'all'      # every line of every lark function is a preemption point
+    if P.get('traceset') == 'matcher':
+        # the terminal matcher shared by all dynamic-Earley parses of an instance, and the scanner loop that calls it
+        TRACED_FUNCS = {('parser_frontends.py', 'match'), ('xearley.py', 'scan')}
     GAPS = P.get('gaps', [12, 12])
     PIN1 = P.get('pin1')
     PART = P.get('part')                        # [i, n]: the first switch position is congruent to i modulo n (strided partition of a wide window)
@@ -347,7 +350,7 @@ def _sched_body(rec, sw, ca, cb):
         seq = make_shared()
         want = [call(seq, CALLS[ca]), call(seq, CALLS[cb])]
         if list(res) != want:
-            rec['fkey'] = 'sched:%s:lost-lexer-callback' % SCFG if 'exception' not in repr(res) else None
+            rec['fkey'] = 'sched:%s:result-differs' % SCFG if 'exception' not in repr(res) else None
             if rec['fkey'] is None:
                 del rec['fkey']
             return hs.fail(rec, 'concurrent first calls under schedule %s give a different result than sequential calls' % pos, calls=[CALLS[ca], CALLS[cb]],
@@ -369,12 +372,13 @@ def plan(tier, seed):
     for cfg in ('lalr-ctx-callbacks', 'lalr-basic', 'earley-dynamic', 'earley-basic', 'indent-ctx', 'indent-basic', 'lalr-multistart'):
         for pin in range(10 if cfg == 'lalr-multistart' else 9):
             slices.append({'id': 'hist:%s:ops<=%d:first%d' % (cfg, 3 if quick else 4, pin), 'func': 'hist',
-                           'params': {'kind': 'hist', 'cfg': cfg, 'pin': pin, 'maxops': 3 if quick else 4, 'nprobes': 6 if quick else 10}, 'mode': 'realised', 'timeout': 400 if quick else 3000,
-                           'twin': pin == 8 and cfg == 'lalr-basic', 'bound': {'ops': 3 if quick else 4, 'op_kinds': 9, 'probes': 6 if quick else 10}})
+                           'params': {'kind': 'hist', 'cfg': cfg, 'pin': pin, 'maxops': 3 if quick else 4, 'nprobes': 6 if quick else 11}, 'mode': 'realised', 'timeout': 400 if quick else 3000,
+                           'twin': pin == 8 and cfg == 'lalr-basic', 'bound': {'ops': 3 if quick else 4, 'op_kinds': 9, 'probes': 6 if quick else 11}})
     # schedules: (configuration, pair of first calls, gap windows between consecutive context switches, in line steps)
     plans = [('earley-dynamic', [0, 1], [60], 'forest'), ('earley-callbacks', [1, 0], [60, 20], 'forest'), ('earley-explicit', [0, 1], [60], 'forest'),
              ('basic-callbacks', [0, 1], [8, 40, 3]), ('basic-callbacks', [0, 2], [8, 40, 3]), ('basic-callbacks', [0, 1], [24, 24]),
-             ('ctx-callbacks', [0, 1], [10, 30, 3]), ('ctx-callbacks', [1, 2], [24, 24]), ('earley-callbacks', [0, 1], [8, 40, 3])]
+             ('ctx-callbacks', [0, 1], [10, 30, 3]), ('ctx-callbacks', [1, 2], [24, 24]), ('earley-callbacks', [0, 1], [8, 40, 3]),
+             ('earley-dynamic', [0, 1], [30, 8, 8], 'matcher')]
     if not quick:
         plans += [('basic-callbacks', [0, 1], [12, 45, 12]), ('basic-callbacks', [2, 2], [12, 45, 12]), ('ctx-callbacks', [0, 1], [12, 45, 12]),
                   ('earley-callbacks', [0, 2], [12, 45, 12]), ('basic-callbacks', [0, 1], [6, 30, 4, 6])]
@@ -395,7 +399,7 @@ def plan(tier, seed):
         npaths = 1
         for g in gaps:
             npaths *= g
-        pins = [None] if npaths * 0.07 < (150 if quick else 1500) else list(range(gaps[0]))
+        pins = [None] if npaths * 0.07 < (60 if quick else 1500) else list(range(gaps[0]))
         for pin in pins:
             slices.append({'id': 'sched:%s:%s:calls%s:gaps%s%s' % (cfg, traceset, pair, gaps, '' if pin is None else ':first%d' % pin), 'func': 'sched', 'mode': 'realised',
                            'params': {'kind': 'sched', 'cfg': cfg, 'pair': pair, 'gaps': gaps, 'pin1': pin, 'traceset': traceset}, 'timeout': 600 if quick else 3000,
